@@ -123,6 +123,10 @@ def relations(ctx, aotools, cfg, rng):
     wit = {"config": slopecfg.summary(cfg)}
     base = slopecfg.construct(aotools, cfg).make_covariance_matrix().astype(np.float64)
     sc = float(np.abs(base).max())
+    # float32 accumulation: one rounding per layer, each layer's contribution to entry (i,j) is bounded by
+    # sqrt(M_ii M_jj) (Cauchy-Schwarz), so the rounding of an entry is <= (L+1) eps32/2 sqrt(M_ii M_jj)
+    dg = np.sqrt(np.abs(np.diag(base)))
+    cs_tol = 8 * EPS32 * (cfg["n_layers"] + 1) * np.outer(dg, dg)
     # additivity
     if cfg["n_layers"] >= 2:
         parts = []
@@ -131,14 +135,14 @@ def relations(ctx, aotools, cfg, rng):
             c1.update(n_layers=1, layer_altitudes=[cfg["layer_altitudes"][l]], layer_r0s=[cfg["layer_r0s"][l]],
                       layer_L0s=[cfg["layer_L0s"][l]])
             parts.append(slopecfg.construct(aotools, c1).make_covariance_matrix().astype(np.float64))
-        tol = 4 * EPS32 * (cfg["n_layers"] + 1) * sum(np.abs(p) for p in parts) + 1e-300
+        tol = cs_tol + 1e-300
         ctx.close("additivity_over_layers", base, sum(parts), tol, "additivity", wit, scale=sc)
     # r0 scaling (all layers scaled by c)
     c = float(rng.choice([0.5, 2.0, 3.7, 0.31]))
     c2 = dict(cfg)
     c2["layer_r0s"] = [r * c for r in cfg["layer_r0s"]]
     Mr = slopecfg.construct(aotools, c2).make_covariance_matrix().astype(np.float64)
-    tol = 8 * EPS32 * (cfg["n_layers"] + 1) * np.abs(base) + 4 * EPS32 * 1e-6 * sc
+    tol = cs_tol + 1e-300
     ctx.close("r0_scaling", Mr * c ** (5.0 / 3.0), base, tol, "r0_scaling", wit, scale=sc)
     # wavelength scaling of one sensor
     w = int(rng.integers(cfg["n_wfs"]))
@@ -148,7 +152,7 @@ def relations(ctx, aotools, cfg, rng):
     Ml = slopecfg.construct(aotools, c3).make_covariance_matrix().astype(np.float64)
     ns = [int(2 * np.asarray(m).sum()) for m in cfg["pupil_masks"]]
     fac = np.concatenate([np.full(n, f if i == w else 1.0) for i, n in enumerate(ns)])
-    tol = 8 * EPS32 * (cfg["n_layers"] + 1) * np.abs(base) * np.outer(fac, fac) + 4 * EPS32 * 1e-6 * sc
+    tol = cs_tol * np.outer(fac, fac) + 1e-300
     ctx.close("wavelength_scaling", Ml, base * np.outer(fac, fac), tol, "wavelength_scaling", wit, scale=sc)
 
 
